@@ -141,7 +141,7 @@ PROPS = {
     'C09': dict(
         vx_units=['inodes', 'ptlookup'], kx=[],
         # C09 is decided through the obligations of the lookup / forget side of C08 (same functions, same clauses): a failure of one of these counts for C09 as well
-        alias=[r'^C08\.lookup\.', r'^C08\.forget\.', r'^C08\.map\.', r'\.(cas|add|insert|seq)$', r'^(inodes|ptlookup)\.(do_lookup|forget_one)\.'],
+        alias=[r'^C08\.lookup\.', r'^C08\.forget\.', r'^C08\.map\.', r'^C08\.ino\.', r'^C08\.store\.remove\.keep', r'\.(cas|add|insert|seq)$', r'^(inodes|ptlookup)\.(do_lookup|forget_one)\.'],
         design_ref='DESIGN.md A.4',
         not_covered=[
             'the linearisation argument that composes the per-step obligations into "the outcome equals some sequential order" is NOT mechanised (it is the standard one: every change of a count is one atomic compare-exchange / fetch_add whose guard is re-validated by that very step or by the write lock)',
